@@ -88,6 +88,14 @@ Theorem C07_reset_ammonium_applied_only_refuted :
   exists g : mineral_glob (T:=R), totals_inv g /\ nh4_inv g /\ ~ nh4_inv (set_nh4sum g 0).
 Proof. exact reset_nh4sum_only_refuted. Qed.
 
+(* the cumulative N2O counter fed by nitrification never decreases over any such run whose mineralisation calls see a water content
+   between 0 and the pore volume (so it is never negative from a start at 0), and the day's N2O amount of every call is >= 0 -
+   'all cumulative N counters are finite and never negative' for the counter the one-sided reset of C07-18 drove below zero *)
+Theorem C07_n2o_counter_monotone_run : forall (ops : list nop4) (g : mineral_glob (T:=R)),
+  totals_inv g /\ nh4_inv g -> ops4_ok g ops -> Forall op4_wet_ok ops ->
+  mg_n2onitsum g <= mg_n2onitsum (fold_left nstep4 ops g).
+Proof. exact run4_n2o. Qed.
+
 Example C07_run_nonvacuous :
   let g := {| mg_wred := 2/10; mg_porges0 := 4/10; mg_dsumm := 0; mg_ums := 0; mg_nh4sum := 0; mg_nh4ums := 0;
               mg_n2onitsum := 0; mg_n2onitdaily := 0; mg_minsum := 0 |} in
@@ -127,5 +135,6 @@ Print Assumptions C07_dissolved_le_applied_frozen.
 Print Assumptions C07_dissolved_le_applied_run.
 Print Assumptions C07_nitrified_le_ammonium_run.
 Print Assumptions C07_reset_ammonium_applied_only_refuted.
+Print Assumptions C07_n2o_counter_monotone_run.
 Print Assumptions C07_credited_once.
 Print Assumptions C07_mineral_n_nonneg.
